@@ -68,3 +68,8 @@ func qMultiReassign(w io.Writer, b []byte) (int, error) {
 	}
 	return n, err
 }
+
+// underef on operands that are themselves unary expressions: the quoted simplification drops the parentheses.
+func qUnderefAddr(x qT) int { return (*&x).v }
+
+func qUnderefRecv(ch chan *qT) int { return (*<-ch).v }
